@@ -64,8 +64,11 @@ def main():
         out["demo_without"] = msg0
         r = sh(f"git apply {d}/patch.diff", cwd=wt)
         if r.returncode != 0:
+            sh("git update-index -q --refresh", cwd=wt)
             r = sh(f"git apply --3way {d}/patch.diff", cwd=wt)
         out["applies"] = r.returncode == 0
+        if r.returncode != 0:
+            out["apply_error"] = r.stdout[-400:]
         if r.returncode == 0:
             n, ok, failed = suite(wt)
             out["suite_with_change"] = f"{ok}/{n}"
